@@ -539,6 +539,119 @@ def _is_curbest_ne_epoch(d: Decision, rd, upd) -> bool:
     return "epoch" in names and len(names) == 2
 
 
+def _saver_table(ctx, rel, where) -> bool:
+    """O8 by value: `save_model_and_optimizer_with_info` interpreted over plain data (sa/pyinterp.py; nothing is run) against a modelled
+    directory: NamedTemporaryFile creates a fresh entry in the directory it is given, torch.save stores a tag of the object written,
+    os.replace moves an entry. For the writing rank with a state directory: afterwards the directory holds exactly the model's state under
+    the model path and the optimizer's state under the optimizer path (no temporary left, nothing else), both temporaries were created in
+    the directory of their destination, and no destination was replaced before both temporaries were written. Without a state directory
+    and for every other rank nothing is touched. False when outside the interpreted fragment."""
+    from sa.inteval import NotEvaluable
+    from sa.pyinterp import Obj, PyInterp, Raised
+    col, pkg = ctx.col, ctx.pkg
+    cls = [st for st in pkg.module(MOD).tree.body if isinstance(st, ast.ClassDef) and st.name == CLS]
+    if not cls:
+        return False
+    methods = {st.name: st for st in cls[0].body if isinstance(st, ast.FunctionDef)}
+    if not all(k in methods for k in (CKPT_FN, MODEL_PATH_FN, OPTIM_PATH_FN)):
+        return False
+    bad, rows = None, 0
+    try:
+        for state_dir, rank, fmts in (("D", 0, ("model_{epoch:03d}.pt", "optim_{epoch:03d}.pt")), ("D", -1, ("m/{epoch}.pt", "o/{epoch}.pt")),
+                                      ("D", 0, ("same_dir/model.pt", "same_dir/optim.pt")), ("D", 1, ("model.pt", "optim.pt")),
+                                      (None, 0, ("model.pt", "optim.pt"))):
+            fs, events, holder = {}, [], {}
+            model, optim = Obj(tag="MODEL"), Obj(tag="OPTIMIZER")
+
+            def leaf(e, env):
+                it = holder["it"]
+                if not isinstance(e, ast.Call):
+                    return None
+                cn = call_name(e)
+                if isinstance(e.func, ast.Attribute) and e.func.attr == "state_dict" and not e.args:
+                    who = it.eval(e.func.value, env)
+                    if who is model or who is optim:
+                        return who.attrs["tag"] + "-STATE"
+                    return None
+                if cn == "os.path.join":
+                    return "/".join(str(it.eval(a, env)) for a in e.args)
+                if cn == "os.path.dirname":
+                    p_ = str(it.eval(e.args[0], env))
+                    return p_.rsplit("/", 1)[0] if "/" in p_ else ""
+                if cn == "os.makedirs":
+                    return "made"
+                if cn.endswith("NamedTemporaryFile"):
+                    d_ = kwarg(e, "dir")
+                    dl = kwarg(e, "delete")
+                    name = f"{it.eval(d_, env) if d_ is not None else '/tmp'}/tmp{len(events)}"
+                    if dl is None or it.eval(dl, env):
+                        events.append(("TEMP-DELETED-ON-CLOSE", name))
+                    fs[name] = "<empty>"
+                    events.append(("TEMP", name))
+                    return Obj(name=name)
+                if cn == "torch.save" and len(e.args) + len(e.keywords) >= 2:
+                    what = it.eval(e.args[0], env)
+                    f_ = it.eval(e.args[1] if len(e.args) > 1 else kwarg(e, "f"), env)
+                    name = f_.attrs["name"] if isinstance(f_, Obj) and "name" in f_.attrs else f_
+                    if not isinstance(name, str):
+                        raise NotEvaluable("torch.save target")
+                    fs[name] = what
+                    events.append(("SAVE", name))
+                    return "saved"
+                if cn in ("os.replace", "os.rename", "shutil.move") and len(e.args) == 2:
+                    src, dst = it.eval(e.args[0], env), it.eval(e.args[1], env)
+                    if src not in fs:
+                        raise Raised("FileNotFoundError")
+                    fs[dst] = fs.pop(src)
+                    events.append(("REPLACE", src, dst))
+                    return "replaced"
+                if cn in ("os.remove", "os.unlink") and len(e.args) == 1:
+                    p_ = it.eval(e.args[0], env)
+                    if p_ not in fs:
+                        raise Raised("FileNotFoundError")
+                    del fs[p_]
+                    return "removed"
+                if cn == "os.path.exists":
+                    return ("yes",) if it.eval(e.args[0], env) in fs else ()
+                return None
+            it = PyInterp(leaf=leaf)
+            holder["it"] = it
+            self_ = Obj(state_dir=state_dir, _rank=rank, params=Obj(saved_model_fmt=fmts[0], saved_optimizer_fmt=fmts[1]))
+            self_.__dict__["cls"] = cls[0]
+            info = {"epoch": 7}
+            rows += 1
+            try:
+                it.call_function(methods[CKPT_FN], [self_, model, optim, info], {})
+                outcome = None
+            except Raised as r_:
+                outcome = r_.kind
+            cfg = f"state_dir={state_dir!r}, rank {rank}, file names {fmts}"
+            writes = state_dir is not None and rank <= 0
+            want = {f"D/{fmts[0].format(**info)}": "MODEL-STATE", f"D/{fmts[1].format(**info)}": "OPTIMIZER-STATE"} if writes else {}
+            problem = None
+            if outcome is not None:
+                problem = f"the call raises {outcome}"
+            elif fs != want:
+                problem = f"afterwards the directory holds {dict(sorted(fs.items()))}; documented: {want}"
+            elif writes:
+                temps = [ev_[1] for ev_ in events if ev_[0] == "TEMP"]
+                moved = {ev_[1]: ev_[2] for ev_ in events if ev_[0] == "REPLACE"}
+                first_repl = min([i_ for i_, ev_ in enumerate(events) if ev_[0] == "REPLACE"], default=None)
+                if any(ev_[0] == "TEMP-DELETED-ON-CLOSE" for ev_ in events):
+                    problem = "a temporary is created to be deleted when it is closed: there is nothing left to move into place"
+                elif any(t_ in moved and t_.rsplit("/", 1)[0] != moved[t_].rsplit("/", 1)[0] for t_ in temps):
+                    problem = f"a temporary is not created in the directory of its destination ({moved}): the move is not atomic across file systems"
+                elif first_repl is None or sum(1 for ev_ in events[:first_repl] if ev_[0] == "SAVE") < 2:
+                    problem = "a checkpoint file is moved into place before both temporaries are written"
+            if problem and bad is None:
+                bad = (cfg, problem)
+    except (NotEvaluable, Raised, KeyError, AttributeError, IndexError, TypeError, ValueError):
+        return False
+    col.ob("G10", "O8", f"{where}::saver-table", bad is None,
+           (f"[{bad[0]}] {bad[1]}") if bad else "", rel, methods[CKPT_FN].lineno, sample=dict(rows=rows))
+    return True
+
+
 def _o5(ctx, rel):
     col, pkg = ctx.col, ctx.pkg
     f = pkg.func(f"{MOD}::{CLS}.{CKPT_FN}")
@@ -629,7 +742,9 @@ def _o5(ctx, rel):
                 ok = (who == "model") == (pth == MODEL_PATH_FN)
                 col.ob("G10", "O8", f"{where}::pair[{who}]", ok,
                        f"`{who}.state_dict()` is written to the path built by {pth}", rel, n.lineno, sample=u(n)[:120])
-    col.floor("saved_pairs", pairs, 2)
+    # (the saver table decides the pairing by value, however the two writes are laid out; the written-out pairs are required only where
+    # the table could not be evaluated)
+    col.floor("saved_pairs", pairs, 0 if _saver_table(ctx, rel, where) else 2)
 
 
 def _o6(ctx, rel):
